@@ -425,8 +425,15 @@ def build_replay(pid, unit):
         '', 'bluetoe', 'bluetoe/utility/include', 'bluetoe/link_layer/include', 'bluetoe/sm/include',
         'bluetoe/bindings', 'bluetoe/bindings/nordic/include', 'bluetoe/services')]
     inc += ['-I' + os.path.join(VERIF, 'replay')]
+    objs = []
+    for cs in rp.get('c_sources', []):
+        o = os.path.join(outdir, os.path.basename(cs) + '.o')
+        rc, so, se, _ = run(['gcc', '-O1', '-w', '-c', os.path.join(REPO, cs), '-o', o] + inc, 600)
+        if rc != 0:
+            return ('build-failed', (so + se)[-3000:])
+        objs.append(o)
     cmd = ['g++', '-std=c++17', '-O1', '-g', '-fno-access-control', '-DBLUETOE_VERIF', '-w'] + rp.get('cxxflags', []) + inc + \
-          [src] + [os.path.join(REPO, s) for s in rp.get('repo_sources', [])] + ['-o', exe]
+          [src] + [os.path.join(REPO, s) for s in rp.get('repo_sources', [])] + objs + ['-o', exe]
     rc, so, se, _ = run(cmd, 600)
     if rc != 0:
         return ('build-failed', (so + se)[-3000:])
